@@ -70,6 +70,7 @@ type scriptCase struct {
 	Manifest string      `json:"manifest"`        // "" | M (auth client) | m (plain client)
 	UnknownLen bool      `json:"unknown_len"`     // leave Request.ContentLength at 0 ("unknown") although the body is not empty
 	Method   string      `json:"method"`          // HTTP method ("" = PUT)
+	DefaultPolicy bool   `json:"default_policy"`  // use retry.DefaultPolicy (random jitter: oracle only, no model line)
 	PreAuth  bool        `json:"pre_auth"`        // op T only: the stack is the auth client, the request already carries Authorization (no challenge handling)
 	Data     string      `json:"data"`            // hex
 	BigLen   int         `json:"big_len"`         // >0: data is generated (pattern), oracle only
@@ -284,6 +285,9 @@ func classify(resp *http.Response, err error) string {
 }
 
 func (c *scriptCase) policy() retry.Policy {
+	if c.DefaultPolicy {
+		return retry.DefaultPolicy
+	}
 	tbl, dflt := c.Tbl, c.Dflt
 	return &retry.GenericPolicy{
 		Retryable: retry.DefaultPredicate,
@@ -472,7 +476,10 @@ func scriptCaseRun(t *testing.T, c *scriptCase) {
 	if c.Op != "T" {
 		line += " second=" + showAttempts(sends[1], data) + " third=" + showAttempts(sends[2], data)
 	}
-	if c.BigLen == 0 {
+	if c.DefaultPolicy {
+		run.Evaluations++
+		run.Count("oracle_only_default_policy")
+	} else if c.BigLen == 0 {
 		run.Case(id, c.modelLine(), line)
 	} else {
 		run.Evaluations++
@@ -675,8 +682,11 @@ func pointCaseRun(c *pointCase) {
 	}
 	maxRetry, min, max := c.MaxRetry, c.Min, c.Max
 	if c.Op == "B" && c.Which == "D" {
-		// ground truth for the documented default policy
-		maxRetry, min, max = 5, int64(200*time.Millisecond), int64(3*time.Second)
+		// the default policy's own bounds ("its minimum and maximum wait")
+		var ok bool
+		if maxRetry, min, max, ok = defaultNumbers(); !ok {
+			return
+		}
 	}
 	fail := func(sig, msg string) {
 		run.OracleFail(id, sig, fmt.Sprintf("%s: %s; Retry(%d, %s) = %s", sig, msg, c.Attempt, c.Out.outString(), seen), c)
@@ -696,8 +706,7 @@ func pointCaseRun(c *pointCase) {
 	}
 	// Retry-After on 429 honoured within the bounds
 	if c.Op == "B" && seen[0] == 'W' && c.Out.Kind == "S" && c.Out.Code == 429 && min <= max {
-		if n, err := strconv.ParseInt(c.Out.RetryAfter, 10, 64); err == nil && n > 0 && n < math.MaxInt64/int64(time.Second) &&
-			!strings.HasPrefix(c.Out.RetryAfter, "+") {
+		if n, err := strconv.ParseInt(c.Out.RetryAfter, 10, 64); err == nil && n > 0 && n < math.MaxInt64/int64(time.Second) {
 			want := n * int64(time.Second)
 			if want < min {
 				want = min
@@ -712,10 +721,22 @@ func pointCaseRun(c *pointCase) {
 	}
 }
 
+// defaultNumbers reads the bounds of retry.DefaultPolicy from the object itself.
+func defaultNumbers() (maxRetry int, min, max int64, ok bool) {
+	gp, ok := retry.DefaultPolicy.(*retry.GenericPolicy)
+	if !ok {
+		return 0, 0, 0, false
+	}
+	return gp.MaxRetry, int64(gp.MinWait), int64(gp.MaxWait), true
+}
+
 // ---------------------------------------------------------------- generators
 
 var statusPool = []int{200, 201, 202, 204, 400, 401, 403, 404, 405, 408, 409, 416, 429, 499, 500, 501, 502, 503, 504, 599, 0, 600}
-var retryAfterPool = []string{"", "", "", "1", "2", "120", "0", "-5", "abc", "99999999999999999999", "9223372036", "9223372037", "+3", " 3", "3 ", "3.5", "0x10", "1_0", "007", "-", "+", "18446744073709551617", "-99999999999999999999", "Wed, 21 Oct 2015 07:28:00 GMT", "\t5", "5s", "٣"}
+// Retry-After values: plain non-negative integers, and values no reasonable reading turns into
+// a delay.  (Left out on purpose: "+3", padded " 3", HTTP-dates -- honouring or rejecting them is
+// a legitimate choice the model should not pin down.)
+var retryAfterPool = []string{"", "", "", "1", "2", "120", "0", "-5", "abc", "99999999999999999999", "9223372036", "9223372037", "3.5", "0x10", "1_0", "007", "-", "18446744073709551617", "-99999999999999999999", "5s", "٣"}
 
 func genBehaviour(r *common.Rand, forAuth bool, evenLat bool) behaviour {
 	b := behaviour{Kind: "S", Read: -1}
@@ -1037,6 +1058,16 @@ func TestVerif(t *testing.T) {
 	// small-scope exhaustive: every sequence of server behaviours up to a length, every body kind, both stacks
 	enumScripts(t, run.Scale(3, 5), false)
 	enumScripts(t, run.Scale(2, 4), true)
+	// the default policy end to end (jitter is random: oracle only; the bounds are the
+	// policy object's own MinWait/MaxWait/MaxRetry)
+	if dmr, dmin, dmax, ok := defaultNumbers(); ok {
+		for i := 0; i < run.Scale(300, 20000); i++ {
+			c := genScript(r, false)
+			c.DefaultPolicy, c.MaxRetry, c.Min, c.Max, c.Tbl, c.Dflt = true, dmr, dmin, dmax, nil, 0
+			c.Cancel, c.Deadline = -1, false
+			scriptCaseRun(t, c)
+		}
+	}
 	nScripts := run.Scale(2500, 500000)
 	nPoints := run.Scale(20000, 4000000)
 	nBig := run.Scale(6, 200)
